@@ -22,6 +22,9 @@ static HELD_VIOLATED: AtomicU64 = AtomicU64::new(u64::MAX);
 static MAX_DEPTH_SEEN: AtomicU64 = AtomicU64::new(0);
 static REDEFERS: AtomicU64 = AtomicU64::new(0);
 static CREATED: AtomicU64 = AtomicU64::new(0);
+/// 0: nodes never had a Weak; 1: every node was downgraded once (the Weak is gone again, the
+/// WEAKED flag stays); 2: every other node
+static WEAKED: AtomicU64 = AtomicU64::new(0);
 
 pub struct CNode {
     next: [AtomicRc<CNode>; 2],
@@ -73,7 +76,22 @@ const SHAPES: [&str; 16] = ["chain", "chain", "chain", "chain", "chain", "chain"
 /// whose age is 14..18 mod 16 alias into the "recent" window and cost extra re-deferrals), so
 /// this leaves a factor of about two.
 pub fn bound(n: u64) -> u64 {
+    if WEAKED.load(Relaxed) != 0 {
+        return bound_weaked(n);
+    }
     24 + 16 * n.div_ceil(1024)
+}
+
+/// The same for structures whose nodes were downgraded at some time (sticky WEAKED flag). There
+/// every destructed node defers the release of its block, so the cascade itself seals a bag
+/// every 8-64 nodes and ticks the clock as it goes; the 4-bit stamps of the nodes further down
+/// then age past the unambiguous window in mid-cascade (and a never-written stamp 0 looks recent
+/// for 5 of every 16 epochs), and the cascade re-defers about twice per 16 epochs instead of once
+/// per 1024 nodes. Measured on the unchanged tree over 400 seeds: up to 102 advances for 1024
+/// nodes (right spine, bag size and interval 8), 62 per 1024 nodes at 20 000 nodes; one grace
+/// period per node would be 3 072 per 1024 nodes.
+pub fn bound_weaked(n: u64) -> u64 {
+    48 + 256 * n.div_ceil(1024)
 }
 
 /// chain-weak: chains longer than the depth cap with Weak pointers to nodes around every
@@ -143,6 +161,7 @@ pub fn gen(prop: &str, seed: u64, stack: bool) -> RunDesc {
     let writer = rng.below(4); // 0 From<Rc> (stamp 0), 1 store, 2 swap, 3 compare_exchange
     let hold = if !stack && shape < 6 && n > 2 && rng.chance(0.4) { Some(1 + rng.below(n - 1)) } else { None };
     let noise = if rng.chance(0.4) { 1 + rng.below(2) } else { 0 };
+    let weaked = if !stack && rng.chance(0.3) { 1 + rng.below(2) } else { 0 };
     let stack_kib: u64 = if stack { *rng.pick(&[64u64, 128, 256, 512, 1024, 2048, 2048, 8192]) } else { 2048 };
     let profile = if stack && rng.chance(0.35) { "dev" } else { "sim" };
     cfg.step_cap = 2_000_000 + 60 * n;
@@ -153,6 +172,7 @@ pub fn gen(prop: &str, seed: u64, stack: bool) -> RunDesc {
         .set("link_writer", ["from_rc", "store", "swap", "compare_exchange"][writer as usize])
         .set("hold_at", hold.map(|h| h as i64).unwrap_or(-1))
         .set("noise_threads", noise)
+        .set("weaked_nodes", weaked)
         .set("stack_kib", stack_kib)
         .set("profile", profile)
         .set("stack_check", stack)
@@ -182,6 +202,15 @@ fn link(parent: &Rc<CNode>, i: usize, child: Rc<CNode>, writer: u64) {
 }
 
 fn node(id: u64, c0: Rc<CNode>, c1: Rc<CNode>, writer: u64) -> Rc<CNode> {
+    let r = node_inner(id, c0, c1, writer);
+    let w = WEAKED.load(Relaxed);
+    if w == 1 || (w == 2 && id % 2 == 0) {
+        drop(r.downgrade());
+    }
+    r
+}
+
+fn node_inner(id: u64, c0: Rc<CNode>, c1: Rc<CNode>, writer: u64) -> Rc<CNode> {
     CREATED.fetch_add(1, Relaxed);
     if writer == 0 {
         Rc::new(CNode { next: [AtomicRc::from(c0), AtomicRc::from(c1)], id })
@@ -328,6 +357,7 @@ fn destroyer(desc: &RunDesc, out: &mut Vec<(String, String)>, fam: &mut J) {
     let shape = p.gets("shape").to_string();
     let writer = ["from_rc", "store", "swap", "compare_exchange"].iter().position(|w| *w == p.gets("link_writer")).unwrap_or(0) as u64;
     let hold_at = p.geti("hold_at");
+    WEAKED.store(p.getu("weaked_nodes"), Relaxed);
     let stack_check = p.getb("stack_check");
     // With other threads around, a cascade may run on (and re-defer into the local bag of) a
     // thread that is then not scheduled for a long time; reclamation latency is then the
